@@ -41,6 +41,8 @@ RULES: Dict[str, Callable] = {
     "R-POWER": _cached("R-POWER", anchored.run_power),
     "R-CARRIER": _cached("R-CARRIER", anchored.run_carrier),
     "R-PRODAXES": _cached("R-PRODAXES", anchored.run_prodaxes),
+    "R-REGISTRAR": _cached("R-REGISTRAR", anchored.run_registrar),
+    "R-OUTER": _cached("R-OUTER", anchored.run_outer),
     "R-GRAD": _cached("R-GRAD", structure.run_grad),
     "R-ALIGNFN": _cached("R-ALIGNFN", structure.run_alignfn),
     "R-NAMES": _cached("R-NAMES", construct.run_names),
@@ -62,6 +64,7 @@ RULES: Dict[str, Callable] = {
     "R-FINAL": _cached("R-FINAL", repres.run_final),
     "R-REDUCE": _cached("R-REDUCE", repres.run_reduce),
     "R-HEADER": _cached("R-HEADER", repres.run_header),
+    "R-VALUES": _cached("R-VALUES", repres.run_values),
 }
 
 
@@ -115,6 +118,7 @@ PLAN: Dict[str, dict] = {
             S("R-DTYPE", "result dtype of a combination depends on all operands", only=COMBINING),
             G("R-ALIGNFN", "align_exponents rebuilds every operand (consumers read .values of fresh, contiguous results)", only=msg("operand not rebuilt")),
             G("R-POWER", "scalar power = one multiplied by the base exactly n times"),
+            G("R-VALUES", "operands that are strided views are read in the right element order"),
             G("R-CLEAN", "the clean-up after each operation drops exactly the all-zero non-constant terms", only=in_funcs("remove_redundant_coefficients")),
         ],
         "explanation": "Structural clauses of exact ring arithmetic: (1) add/subtract/negative/positive hand the "
@@ -131,6 +135,7 @@ PLAN: Dict[str, dict] = {
             G("R-GUARDS", "TypeError for unknown / doubly supplied names dominates evaluation"),
             G("R-TWIN", "the polynomial and the numeric branch of the evaluation loop receive the same operands"),
             G("R-CARRIER", "the broadcast carrier promotes narrow argument dtypes (value independent of the carrying type)"),
+            G("R-OUTER", "outer (used for coefficient x term) flattens both operands like numpy.outer"),
             G("R-UNSIGNED", "no caller value meets an unsanitised uint32 exponent (value independent of the argument's type)", only=in_funcs("call")),
         ],
         "explanation": "call(): branches raising TypeError for an unknown and for a doubly supplied indeterminate exist and every "
@@ -149,6 +154,7 @@ PLAN: Dict[str, dict] = {
             G("R-PAIR", "exponents and coefficients are paired by one traversal order", only=no_msg("monoms")),
             G("R-OPT-LAYERS", "retain_* options only replace an omitted (None) argument"),
             G("R-CLEAN", "exactly the all-zero non-constant terms and the unused names are dropped", only=in_funcs("remove_redundant_coefficients", "remove_redundant_names")),
+            G("R-CAST", "every coefficient array is cast to the coefficient dtype before the raw write"),
         ],
         "explanation": "Construction goes through validated constructors: every normal return of postprocess_attributes passed the "
                        "2-d / length / name-count / duplicate-name / duplicate-exponent checks; encode/decode of storage keys use "
@@ -190,6 +196,7 @@ PLAN: Dict[str, dict] = {
             G("R-COLIDX", "the column index comes from the names of the polynomial whose exponent columns are indexed"),
             G("R-LAYOUT", "positional column indices only on polynomials whose names layout is option-independent"),
             G("R-GRAD", "gradient stacks derivative over all names in order; hessian = gradient of gradient"),
+            G("R-ALIGNFN", "the re-alignment after each step keeps the indeterminates in integer index order", only=msg("sorted by int", "sort key")),
             S("R-ALIGN", "derivative re-aligns with the reference after each variable"),
         ],
         "explanation": "derivative: the decrement of the uint32 exponent column is applied only to rows filtered by 'column > 0' "
@@ -218,6 +225,8 @@ PLAN: Dict[str, dict] = {
             G("R-REG", "numpy.f(poly) and numpoly.f(poly) execute the same def; reduce/accumulate mappings"),
             G("R-DISPATCH", "unsupported callables / ufunc methods raise FeatureNotSupported; arguments forwarded unchanged"),
             G("R-OPS", "operators and method spellings forward to the same functions with all parameters"),
+            G("R-REGISTRAR", "the registration decorators enter every target into every table"),
+            S("R-FWD", "registered wrappers forward the value/shape parameters they share with numpy"),
         ],
         "explanation": "Positive half by identity of callee: every reachable registry entry T->F satisfies numpoly.<name(T)> is F, "
                        "ufuncs only reachable through the ufunc table; REDUCE/ACCUMULATE mappings agree with numpy's definition of "
@@ -235,6 +244,7 @@ PLAN: Dict[str, dict] = {
             S("R-FWD", "shape/axis/index parameters used and forwarded under their own names"),
             S("R-NAMES", "names preserved wherever raw storage is re-wrapped"),
             G("R-GETITEM", "the same index applied to every column"),
+            G("R-VALUES", "the structured storage handed to numpy honours the strides of views"),
             S("R-ALIGN", "joining functions align first"),
             S("R-DTYPE", "joined / selected results take a dtype depending on all operands", only=COMBINING),
         ],
@@ -256,6 +266,7 @@ PLAN: Dict[str, dict] = {
             G("R-REG", "add.reduce / add.accumulate / method spellings reach the same function", only=lambda f: any(n in f.function + f.message + f.construct for n in ("sum", "cumsum", "mean", "prod", "diff", "inner", "outer", "matmul", "det", "REDUCE_MAPPINGS", "ACCUMULATE_MAPPINGS"))),
             S("R-KEYS", "result buffers are fully written"),
             G("R-PRODAXES", "prod over an axis tuple reduces and re-inserts each axis in one traversal"),
+            G("R-OUTER", "outer flattens both operands like numpy.outer"),
         ],
         "explanation": "sum/cumsum/mean dispatch their namesake per aligned key with axis/dtype/keepdims forwarded; diff aligns a, "
                        "prepend and append in one call and writes every key; every numpy call in the call graph of the reductions "
@@ -269,6 +280,8 @@ PLAN: Dict[str, dict] = {
             S("R-ORDER", "operand order (allclose / isclose / division are asymmetric)"),
             S("R-FWD", "value/shape parameters used"),
             S("R-SIG", "every numpy call binds"),
+            G("R-ALIGNFN", "binary mirrored functions broadcast their operands like numpy (align_shape guard)", only=msg("align_shape: guard")),
+            S("R-DTYPE", "selected / joined results keep numpy's promoted dtype", only=COMBINING),
         ],
         "explanation": "Last sentence in full: in true_divide/floor_divide/remainder/divmod every path to the numeric ufunc or to a "
                        "normal return passed divisor.isconstant() and the other edge raises FeatureNotSupported. Every registered "
